@@ -67,7 +67,7 @@ pub fn keygen<S: MlDsa>(seed: u64, nfull: usize, nlite: usize, extra_seeds: &[[u
 pub fn sign<S: MlDsa>(seed: u64, nfull: usize, nfactor: usize, allctx: bool, out: &mut Out) {
     let mut p = Prng::new(seed, 0x0300 + S::SET as u64);
     let xi = p.arr32();
-    let (_pk, sk0) = S::keygen_seed(&xi);
+    let (pk0, sk0) = S::keygen_seed(&xi);
     let skb = S::sk_bytes(&sk0);
     let sk_rt = S::sk_from(&skb).expect("round trip");
     // (ii) full recomputation: external (all four modes in rotation) and internal, both key provenances
@@ -113,11 +113,14 @@ pub fn sign<S: MlDsa>(seed: u64, nfull: usize, nfactor: usize, allctx: bool, out
                 let ext = S::sign(&sk0, &mut rng, &m, &ctx, mode);
                 let mp = format_msg(mode, &ctx, &m);
                 let int = S::internal_sign(&sk0, &mp, rnd);
-                (ext, mp, int)
+                // Verify = Verify_internal o FormatMsg on the same tuple
+                let e = ext.clone().unwrap_or_default();
+                let (ve, vi) = (S::verify(&pk0, &m, &e, &ctx, mode), S::internal_verify(&pk0, &mp, &e));
+                (ext, mp, int, ve, vi)
             });
             match r {
-                Ok((ext, mp, int)) => out.ev(json!({"ev": "SignFactor", "mode": mode, "ctx": jbytes(&ctx), "m": jbytes(&m), "mp": jbytes(&mp),
-                    "ok": ext.is_ok(), "ext": hexs(&ext.unwrap_or_default()), "int": hexs(&int), "rnglog": rng.log_json()})),
+                Ok((ext, mp, int, ve, vi)) => out.ev(json!({"ev": "SignFactor", "mode": mode, "ctx": jbytes(&ctx), "m": jbytes(&m), "mp": jbytes(&mp),
+                    "ok": ext.is_ok(), "ext": hexs(&ext.unwrap_or_default()), "int": hexs(&int), "ver_ext": ve, "ver_int": vi, "rnglog": rng.log_json()})),
                 Err((loc, msg)) => out.ev(json!({"ev": "Panic", "call": "sign", "loc": loc, "msg": msg})),
             }
         }
@@ -269,6 +272,11 @@ pub fn hint_mutants<S: MlDsa>(sig: &[u8], p: &mut Prng) -> Vec<(String, Vec<u8>)
             mk(&format!("count of empty poly {} set to 0", i), &|y| y[om + i] = 0);
         }
     }
+    // one strictly increasing run through the whole section, counts included, with over-large counts: a decoder
+    // that checks the counts against omega too late walks (and reads) past the end of the section
+    mk("strictly increasing run through positions and counts (counts 200, 201, ...)", &|y| { for i in 0..om { y[i] = i as u8; } for i in 0..S::K { y[om + i] = (200 + i) as u8; } });
+    mk("strictly increasing run, first count 255", &|y| { for i in 0..om { y[i] = i as u8; } for i in 0..S::K { y[om + i] = (248 + i.min(7)) as u8; } y[om] = 255; });
+    mk("all positions increasing, last count omega + k + 1", &|y| { for i in 0..om { y[i] = i as u8; } for i in 0..S::K { y[om + i] = om as u8; } y[om + S::K - 1] = (om + S::K + 1) as u8; });
     // a count raised by one so that it swallows a zero padding byte (index 0 after a larger index)
     if total < om && total > 0 { mk("last count raised over padding", &|y| y[om + S::K - 1] += 1); }
     v
